@@ -898,7 +898,8 @@ pub(crate) async fn run_master(script: &Script, obs: &mut Vec<String>) {
     flush(obs);
 
     let mut tx = Some(tx);
-    for op in &script.ops {
+    for (opno, op) in script.ops.iter().enumerate() {
+        log(format!("op {}", opno));
         if shared.borrow().stopped || tx.is_none() {
             log("ignored".to_string());
             flush(obs);
